@@ -136,6 +136,11 @@ func (p *Program) atomName(v ssa.Value, depth int) string {
 // linearizeInline for that.
 func (p *Program) linearize(v ssa.Value, depth int) Lin {
 	v = stripConv(v)
+	if len(p.linFrames) > 0 && depth < 12 {
+		if l, ok := p.linFromFrame(v, depth); ok {
+			return l
+		}
+	}
 	switch x := v.(type) {
 	case *ssa.Const:
 		if x.Value != nil && x.Value.Kind() == constant.Int {
@@ -188,8 +193,144 @@ func (p *Program) linearize(v ssa.Value, depth int) Lin {
 	return l
 }
 
-// inlineLinear: if f is a single-block (or trivially branching) pure helper
-// returning an int computed linearly from its parameters, substitute.
+// linFrame: while the body of an inlined helper is being linearised, its parameters stand for the arguments of the call
+// being inlined (evaluated in the caller's own context).
+type linFrame struct {
+	fn   *ssa.Function
+	args []ssa.Value
+}
+
+// withFrame runs f with the parameters of fn bound to args.
+func (p *Program) withFrame(fn *ssa.Function, args []ssa.Value, f func()) {
+	p.linFrames = append(p.linFrames, linFrame{fn, args})
+	defer func() { p.linFrames = p.linFrames[:len(p.linFrames)-1] }()
+	f()
+}
+
+// linFromFrame: v is a parameter of a function being inlined, or a field of a struct-valued (or pointer-to-struct)
+// parameter of it: the argument at the inlined call, resp. the value the call site stored into that field of the struct
+// it passes, linearised in the caller's context.
+func (p *Program) linFromFrame(v ssa.Value, depth int) (Lin, bool) {
+	frameOf := func(prm *ssa.Parameter) int {
+		for i := len(p.linFrames) - 1; i >= 0; i-- {
+			if p.linFrames[i].fn == prm.Parent() {
+				return i
+			}
+		}
+		return -1
+	}
+	inCaller := func(i int, f func() Lin) Lin {
+		saved := p.linFrames
+		p.linFrames = saved[:i]
+		defer func() { p.linFrames = saved }()
+		return f()
+	}
+	switch x := v.(type) {
+	case *ssa.Parameter:
+		i := frameOf(x)
+		idx := paramIndex(x.Parent(), x)
+		if i < 0 || idx < 0 || idx >= len(p.linFrames[i].args) {
+			return Lin{}, false
+		}
+		arg := p.linFrames[i].args[idx]
+		return inCaller(i, func() Lin { return p.linearize(arg, depth+1) }), true
+	}
+	// field of a parameter
+	var prm *ssa.Parameter
+	field := -1
+	switch x := v.(type) {
+	case *ssa.Field:
+		if q, ok := x.X.(*ssa.Parameter); ok {
+			prm, field = q, x.Field
+		}
+	case *ssa.UnOp:
+		if x.Op == token.MUL {
+			if fa, ok := x.X.(*ssa.FieldAddr); ok {
+				switch b := fa.X.(type) {
+				case *ssa.Parameter:
+					prm, field = b, fa.Field
+				case *ssa.Alloc:
+					// a struct-valued parameter spilled to a local so that its fields can be addressed
+					if isParamSpill(b) {
+						for _, st := range storesTo(b) {
+							if q, ok := st.Val.(*ssa.Parameter); ok {
+								prm, field = q, fa.Field
+							}
+						}
+					}
+				}
+			}
+		}
+	}
+	if prm == nil {
+		return Lin{}, false
+	}
+	// the struct value the parameter stands for, followed through the frames it is passed along
+	ctx := len(p.linFrames)
+	var cur ssa.Value = prm
+	for hops := 0; hops < 6; hops++ {
+		// the value of a spilled struct parameter is that parameter
+		if u, isLoad := cur.(*ssa.UnOp); isLoad && u.Op == token.MUL {
+			if sp, isAl := u.X.(*ssa.Alloc); isAl && isParamSpill(sp) {
+				for _, st := range storesTo(sp) {
+					if q, ok := st.Val.(*ssa.Parameter); ok {
+						cur = q
+					}
+				}
+			}
+		}
+		q, isPrm := cur.(*ssa.Parameter)
+		if !isPrm {
+			break
+		}
+		j := -1
+		for k := ctx - 1; k >= 0; k-- {
+			if p.linFrames[k].fn == q.Parent() {
+				j = k
+				break
+			}
+		}
+		idx := paramIndex(q.Parent(), q)
+		if j < 0 || idx < 0 || idx >= len(p.linFrames[j].args) {
+			return Lin{}, false
+		}
+		cur = stripConv(p.linFrames[j].args[idx])
+		ctx = j
+	}
+	// a local built field by field (passed by value: its load; by pointer: itself)
+	var al *ssa.Alloc
+	switch a := cur.(type) {
+	case *ssa.Alloc:
+		al = a
+	case *ssa.UnOp:
+		if a.Op == token.MUL {
+			al, _ = a.X.(*ssa.Alloc)
+		}
+	}
+	if al == nil {
+		return Lin{}, false
+	}
+	var vals []ssa.Value
+	for _, u := range usesOf(al) {
+		fa, ok := u.(*ssa.FieldAddr)
+		if !ok || fa.Field != field {
+			continue
+		}
+		for _, uu := range usesOf(fa) {
+			if st, ok := uu.(*ssa.Store); ok && st.Addr == ssa.Value(fa) {
+				vals = append(vals, st.Val)
+			}
+		}
+	}
+	if len(vals) != 1 {
+		return Lin{}, false
+	}
+	return inCaller(ctx, func() Lin { return p.linearize(vals[0], depth+1) }), true
+}
+
+// inlineLinear: if f is a single-block pure helper returning an int computed from its parameters, its return expression
+// with the parameters bound to the call's arguments. Exported helpers are inlined only when they are plain arithmetic;
+// unexported ones may also read fields of their (struct) parameters and call other helpers.
 func (p *Program) inlineLinear(f *ssa.Function, args []ssa.Value, depth int) (Lin, bool) {
 	if len(f.Blocks) != 1 || f.Signature.Results().Len() != 1 {
 		return Lin{}, false
@@ -199,24 +340,45 @@ func (p *Program) inlineLinear(f *ssa.Function, args []ssa.Value, depth int) (Li
 	if !ok {
 		return Lin{}, false
 	}
+	wide := f.Object() != nil && !f.Object().Exported() && f.Parent() == nil
 	for _, ins := range b.Instrs {
-		switch ins.(type) {
+		switch x := ins.(type) {
 		case *ssa.BinOp, *ssa.Return, *ssa.Convert, *ssa.ChangeType, *ssa.DebugRef:
+		case *ssa.Field:
+			if !wide {
+				return Lin{}, false
+			}
+			if _, isPrm := x.X.(*ssa.Parameter); !isPrm {
+				return Lin{}, false
+			}
+		case *ssa.Call:
+			if !wide || !isBasic(x.Type()) {
+				return Lin{}, false
+			}
+		case *ssa.Alloc:
+			if !wide || !isParamSpill(x) {
+				return Lin{}, false
+			}
+		case *ssa.Store:
+			al, isAl := x.Addr.(*ssa.Alloc)
+			if _, isPrm := x.Val.(*ssa.Parameter); !wide || !isAl || !isPrm || !isParamSpill(al) {
+				return Lin{}, false
+			}
+		case *ssa.FieldAddr:
+			al, isAl := x.X.(*ssa.Alloc)
+			if _, isPrm := x.X.(*ssa.Parameter); !wide || !(isPrm || (isAl && isParamSpill(al))) {
+				return Lin{}, false
+			}
+		case *ssa.UnOp:
+			if _, isFA := x.X.(*ssa.FieldAddr); !wide || x.Op != token.MUL || !isFA {
+				return Lin{}, false
+			}
 		default:
 			return Lin{}, false
 		}
 	}
-	inner := p.linearize(ret.Results[0], depth)
-	out := newLin()
-	out.Konst = inner.Konst
-	for k, c := range inner.Coef {
-		var idx int
-		if n, _ := fmt.Sscanf(k, "param#%d", &idx); n == 1 && idx < len(args) {
-			out = out.add(p.linearize(args[idx], depth).scale(c), 1)
-		} else {
-			out.Coef[k] += c
-		}
-	}
+	var out Lin
+	p.withFrame(f, args, func() { out = p.linearize(ret.Results[0], depth) })
 	return out, true
 }
 
@@ -394,17 +556,71 @@ func (p *Program) piecewiseCall(v ssa.Value) (Lin, []CmpForm, bool) {
 	}
 	for _, b := range h.Blocks { // pure: no stores, no calls other than to pure size helpers
 		for _, ins := range b.Instrs {
-			switch ins.(type) {
-			case *ssa.Store, *ssa.MapUpdate, *ssa.Send, *ssa.Go, *ssa.Defer:
+			switch x := ins.(type) {
+			case *ssa.Store:
+				// the spill of a struct-valued parameter (so that its fields can be addressed) is not an effect
+				if al, isAl := x.Addr.(*ssa.Alloc); isAl && isParamSpill(al) {
+					if _, isPrm := x.Val.(*ssa.Parameter); isPrm {
+						continue
+					}
+				}
+				return Lin{}, nil, false
+			case *ssa.MapUpdate, *ssa.Send, *ssa.Go, *ssa.Defer:
 				return Lin{}, nil, false
 			}
 		}
 	}
-	l := p.substParams(p.linearize(nz.Results[0], 0), call)
+	var l Lin
 	var guards []CmpForm
-	for _, g := range p.guardFormsLin(nz.Block()) {
-		guards = append(guards, CmpForm{g.Rel, p.substParams(g.L, call)})
-	}
+	p.withFrame(h, call.Call.Args, func() {
+		l = p.linearize(nz.Results[0], 0)
+		guards = append(guards, p.guardFormsLin(nz.Block())...)
+	})
 	_ = zeros
 	return l, guards, true
+}
+
+// linearizeResolved: linearize, with the parameters of a private part that has a single call site replaced by the
+// linear form of the argument passed there (up to three levels): an expression inside an extracted helper reads as it
+// did before the extraction.
+func (p *Program) linearizeResolved(v ssa.Value) Lin {
+	return p.linResolved(v, 0)
+}
+
+func (p *Program) linResolved(v ssa.Value, depth int) Lin {
+	l := p.linearize(v, 0)
+	fn := valueParent(v)
+	if fn == nil || depth > 3 {
+		return l
+	}
+	out := newLin()
+	out.Konst = l.Konst
+	for k, coef := range l.Coef {
+		var idx int
+		if n, err := fmt.Sscanf(k, "param#%d", &idx); err == nil && n == 1 && fmt.Sprintf("param#%d", idx) == k && idx < len(fn.Params) {
+			if r := p.resolveParam(fn.Params[idx]); r != ssa.Value(fn.Params[idx]) {
+				out = out.add(p.linResolved(r, depth+1).scale(coef), 1)
+				continue
+			}
+		}
+		out.Coef[k] += coef
+	}
+	for k, c := range out.Coef {
+		if c == 0 {
+			delete(out.Coef, k)
+		}
+	}
+	return out
+}
+
+func valueParent(v ssa.Value) *ssa.Function {
+	switch x := v.(type) {
+	case ssa.Instruction:
+		return x.Parent()
+	case *ssa.Parameter:
+		return x.Parent()
+	case *ssa.FreeVar:
+		return x.Parent()
+	}
+	return nil
 }
